@@ -136,6 +136,32 @@ fn classify(text: &[u8], marks: &[Mark], paths: &[Vec<Step>], exp: &Value, got: 
     let style = mark.map(|m| m.style.name()).unwrap_or("collection");
     let (ek, gk) = (e.map(ygen::kind_name).unwrap_or("absent"), g.map(ygen::kind_name).unwrap_or("absent"));
     let detail = json!({"path": step_json(&d), "expected_at_path": e, "got_at_path": g, "style": style});
+    // (c) narrow class: block scalar with an explicit indentation indicator on a line that
+    // starts with `- ` where the scalar's parent node does not start at the line's indentation
+    // (`- - |2`, `- - k: |2`, `-   k: |4`): the loader derives the parent indentation from the
+    // first dash of the line, so the content keeps surplus (or loses) leading spaces.
+    if let (Some(m), Some(Value::String(es)), Some(Value::String(gs))) = (mark, e, g) {
+        let hdr_end = text[m.start as usize..m.end as usize].iter().position(|&b| b == b'\n' || b == b'\r').map_or(m.end as usize, |i| m.start as usize + i);
+        let has_digit = text[m.start as usize..hdr_end].iter().any(|b| b.is_ascii_digit());
+        if matches!(m.style, Style::Literal | Style::Folded) && has_digit {
+            let ls = m.start as usize - col_of(text, m.start as usize);
+            let prefix = &text[ls..m.start as usize];
+            let li = prefix.iter().take_while(|&&b| b == b' ').count();
+            if prefix.get(li) == Some(&b'-') && prefix.get(li + 1) == Some(&b' ') {
+                let has_colon = prefix[li + 2..].contains(&b':');
+                let assumed = li + if has_colon { 2 } else { 0 };
+                let actual = if has_colon {
+                    marks.iter().find(|k| k.key && paths[k.pid as usize] == d).map_or(usize::MAX, |k| col_of(text, k.start as usize))
+                } else {
+                    prefix.iter().rposition(|&b| b == b'-').unwrap_or(0)
+                };
+                let strip = |s: &str| s.lines().map(|l| l.trim_start_matches(' ').to_string()).collect::<Vec<_>>();
+                if assumed != actual && strip(es) == strip(gs) {
+                    return ("load:block-scalar-explicit-indent:compact-line:parent-indent-taken-from-first-dash".into(), detail);
+                }
+            }
+        }
+    }
     // (b) narrow class: an EMPTY mapping value that is followed, at the same or a smaller
     // indentation, by an entry whose key is QUOTED, loads as that key's string.
     if let (Some(m), Some(Value::Null), Some(Value::String(gs))) = (mark, e, g) {
